@@ -471,3 +471,69 @@ pub fn training_flags(net: &network::Network) -> Vec<bool> {
 pub fn bits(v: &[f32]) -> Vec<u32> {
     v.iter().map(|x| x.to_bits()).collect()
 }
+
+/// Element-wise `a += b` written independently of the library's `Tensor::add_inplace`
+/// (the reference trainers must not inherit a defect of the code under test). Panics on a
+/// structural mismatch, which would be a harness error.
+pub fn add_tensor(a: &mut tensor::Tensor, b: &tensor::Tensor) {
+    fn go(a: &mut tensor::Data, b: &tensor::Data) {
+        match (a, b) {
+            (tensor::Data::Single(x), tensor::Data::Single(y)) => {
+                assert_eq!(x.len(), y.len());
+                for (p, q) in x.iter_mut().zip(y.iter()) {
+                    *p += *q;
+                }
+            }
+            (tensor::Data::Double(x), tensor::Data::Double(y)) => {
+                assert_eq!(x.len(), y.len());
+                for (r, s) in x.iter_mut().zip(y.iter()) {
+                    assert_eq!(r.len(), s.len());
+                    for (p, q) in r.iter_mut().zip(s.iter()) {
+                        *p += *q;
+                    }
+                }
+            }
+            (tensor::Data::Triple(x), tensor::Data::Triple(y)) => {
+                assert_eq!(x.len(), y.len());
+                for (c, d) in x.iter_mut().zip(y.iter()) {
+                    for (r, s) in c.iter_mut().zip(d.iter()) {
+                        for (p, q) in r.iter_mut().zip(s.iter()) {
+                            *p += *q;
+                        }
+                    }
+                }
+            }
+            (tensor::Data::Quadruple(x), tensor::Data::Quadruple(y)) => {
+                assert_eq!(x.len(), y.len());
+                for (f, g) in x.iter_mut().zip(y.iter()) {
+                    for (c, d) in f.iter_mut().zip(g.iter()) {
+                        for (r, s) in c.iter_mut().zip(d.iter()) {
+                            for (p, q) in r.iter_mut().zip(s.iter()) {
+                                *p += *q;
+                            }
+                        }
+                    }
+                }
+            }
+            (tensor::Data::Nested(x), tensor::Data::Nested(y)) => {
+                assert_eq!(x.len(), y.len());
+                for (t, u) in x.iter_mut().zip(y.iter()) {
+                    go(&mut t.data, &u.data);
+                }
+            }
+            (tensor::Data::NestedOptional(x), tensor::Data::NestedOptional(y)) => {
+                assert_eq!(x.len(), y.len());
+                for (t, u) in x.iter_mut().zip(y.iter()) {
+                    match (t.as_mut(), u.as_ref()) {
+                        (Some(t), Some(u)) => go(&mut t.data, &u.data),
+                        (None, None) => {}
+                        _ => panic!("harness: optional gradient present on one side only"),
+                    }
+                }
+            }
+            (tensor::Data::Quintuple(_), tensor::Data::Quintuple(_)) => {}
+            _ => panic!("harness: gradient tensors of different kinds"),
+        }
+    }
+    go(&mut a.data, &b.data);
+}
